@@ -57,6 +57,9 @@ P = {
  "C17": ("Seeded random compositions restricted to velocities 1-127 and integral-tick values are written with write_Composition and read back with MIDI_to_Composition; compared per track on the flattened (ticks, pitch set) sequence, per-entry (pitch, channel, velocity), tempo, names, instrument numbers and, for single-key/meter tracks, key and meter of every bar; every key x meter systematically; bpm 4..1000 (thorough 7000) exhaustively; the VLQ reader on reference encodings (thorough: all 2^28); corrupted tags and format words must be rejected.",
          "Expected flattened sequence from the score description (vlib/ref/midimodel.py); the writer's own correctness is C16's subject (files are pre-validated by the independent SMF reader).",
          "round-trip property over Hypothesis-generated programs + exhaustive enumeration of tempo / VLQ / corruption domains"),
+ "C18": ("Seeded random notes, containers, bars and tracks (sequential API) and 1-4 parallel bars / tracks / compositions in an aligned and a free-rhythm class are played through a recording Sequencer subclass with recording observers attached 0/1/2 times or detached; cumulative sleep is mapped to musical time through the model's tempo segments and the timed on/off multiset, per-(pitch, channel) balance, play order (sequential), total sleep, instrument announcements, observer trace and returned tempo are compared with the event model; control changes enumerated around the 0/128 bounds.",
+         "Event model computed from the score description; simultaneous events constrained only by balance (and order of notes for the sequential API); parallel tempo changes only in the first part.",
+         "model-based trace validation over Hypothesis-generated programs"),
 }
 DEFAULT_NOTE = "Oracle = independent reference model under /verif/vlib/ref; bounds per DESIGN.md section 4."
 
